@@ -76,7 +76,9 @@ REQUIRED_LABELS = {
         "quantized_linear", "quantized_relu", "quantized_tanh",
         "quantized_sigmoid", "quantized_po2", "quantized_relu_po2", "binary",
         "ternary", "stochastic_binary", "stochastic_ternary", "phase_switch",
-        "tiny_elem"]
+        "tiny_elem", "binary_infer:rank1", "binary_infer:lastdim1",
+        "binary_infer:lastdim_eq_rank", "binary_infer:lastdim_ne_rank",
+        "binary_infer:rank2", "binary_infer:rank3", "binary_infer:rank4"]
     for t in ("quick", "thorough")}
 
 NDRAWS = {"quick": 2048, "thorough": 16384}
@@ -614,6 +616,13 @@ def oracle(case):
       else:
         labels.append("infer")
         xin = base.reshape(-1) if flat_infer else base
+        if cfg["cls"] == "binary":
+          # the inference branch of binary(use_stochastic_rounding) builds a ones
+          # tensor from the input: every rank / last-dimension class is measured
+          ld = "rank1" if xin.ndim == 1 else (
+              "lastdim1" if xin.shape[-1] == 1 else
+              ("lastdim_eq_rank" if xin.shape[-1] == xin.ndim else "lastdim_ne_rank"))
+          labels += ["binary_infer:" + ld, "binary_infer:rank%d" % xin.ndim]
         try:
           y0 = _call(q, xin, 0, sd)
           y0b = _call(q, xin, 0, sd + 1)
@@ -699,6 +708,17 @@ def _walk_cases(ctx, pools):
     out.append({"fam": "sign", "cfg": cfg, "xs": t["xs"], "shape": t["shape"],
                 "phases": SCHEDULES[k % len(SCHEDULES)] if S.sign_trainable(cfg) else [0],
                 "train": S.sign_trainable(cfg), "flat_infer": bool(k % 3 == 1)})
+  # binary(use_stochastic_rounding) at inference over every rank / last-dimension
+  # class (regression domain of the fixed C08-KF2/KF2b)
+  bshapes = [[6], [1], [3, 1], [2, 4], [4, 2], [5, 5], [2, 2, 2], [2, 3, 1], [3, 2, 3],
+             [2, 2, 3], [2, 1, 2, 4], [1, 2, 2, 1], [2, 1, 3, 2], [1, 1, 1, 5]]
+  vals = [0.5, -0.25, 0.0, 1.5, -1.0, 0.125, -0.0, 2.0, -0.75, 0.03, 1.0, -3.0]
+  for k, cfg in enumerate([c for c in pools["sign"] if c["cls"] == "binary"]):
+    for j, shp in enumerate(bshapes):
+      nel = int(np.prod(shp))
+      xs_ = [float(vals[(i * 5 + j + k) % len(vals)]) for i in range(nel)]
+      out.append({"fam": "sign", "cfg": cfg, "xs": xs_, "shape": shp, "phases": [0],
+                  "train": False})
   for k, cfg in enumerate(pools["auto"]):
     if k % (2 if ctx.quick else 1) == 0:
       t = S.auto_walk(cfg)
